@@ -475,8 +475,11 @@ class The(ResultQuantifier[T]):
         # start from a clean state whatever happened to earlier evaluations, and leave a clean state behind on any exit
         self._reset_cache_()
         try:
-            result = self._evaluate_()
-            result = self._process_result_(result)
+            # like an(), evaluate concretely whatever the mode of the caller: predicates are executed and inferred
+            # instances are constructed, not built symbolically.
+            with symbolic_mode(mode=None):
+                result = self._evaluate_()
+                result = self._process_result_(result)
         finally:
             self._reset_cache_()
         return result
